@@ -314,7 +314,7 @@ func parsePESOptionalHeader(i *astikit.BytesIterator) (h *PESOptionalHeader, dat
 			err = fmt.Errorf("astits: fetching next bytes failed: %w", err)
 			return
 		}
-		h.CRC = uint16(bs[0])>>8 | uint16(bs[1])
+		h.CRC = uint16(bs[0])<<8 | uint16(bs[1])
 	}
 
 	// Extension
